@@ -43,14 +43,23 @@ pub fn run_miri(ctx: &Ctx, args: &[String], seed_from: u64, seed_to: u64) -> Mir
         "-Zmiri-many-seeds={}..{} -Zmiri-preemption-rate=0.05",
         seed_from, seed_to
     );
-    let o = Command::new("cargo")
-        .args(["+nightly", "miri", "run", "-q", "--offline", "--"])
+    let mut cmd = Command::new("cargo");
+    cmd.args(["+nightly", "miri", "run", "-q", "--offline", "--"])
         .args(args)
         .current_dir(miri_dir(ctx))
         .env("MIRIFLAGS", flags)
-        .env_remove("RUSTFLAGS")
-        .output();
+        .env_remove("RUSTFLAGS");
+    let o = crate::proc::run(&mut cmd, std::time::Duration::from_secs(1800));
     let o = match o {
+        Ok(o) if o.timed_out => {
+            return MiriOut {
+                ok: false,
+                results: vec![],
+                mismatches: vec![],
+                diagnostics: vec!["cargo miri run killed after 30 minutes".to_string()],
+                raw_tail: String::from_utf8_lossy(&o.stderr).chars().rev().take(600).collect::<String>().chars().rev().collect(),
+            }
+        }
         Ok(o) => o,
         Err(e) => {
             return MiriOut {
@@ -96,7 +105,7 @@ pub fn run_miri(ctx: &Ctx, args: &[String], seed_from: u64, seed_to: u64) -> Mir
         .collect::<Vec<_>>()
         .join("\n");
     MiriOut {
-        ok: o.status.success(),
+        ok: o.code == Some(0),
         results,
         mismatches,
         diagnostics,
